@@ -442,6 +442,21 @@ def run(ctx: Context) -> None:
     r1_r2(ctx, sites)
     r3(ctx)
     r4(ctx)
+    # R5: "stored" includes what the stored value points at: a result / exception externalised to the client data store is
+    # written there before its reference is handed out (shared with C15/R3)
+    from . import c15
+
+    ctx.rule("R5", "a value externalised to the client data store is written before its reference key is returned: what SUCCESS / FAILED publish can be resolved by any process (shared with C15/R3)")
+    sub = Context("C15", ctx.repo, ctx.tier, ctx.seed)
+    sub._resolver = ctx._resolver
+    c15.r3(sub, sites)
+    n5 = 0
+    for i in sub.instances:
+        k = i.key.split("/", 2)[2]
+        if k.endswith(("every-returned-key-was-written", "stores-hashed-string-under-its-key", "returns-the-key", "writes-value-under-key", "reads-by-key")):
+            n5 += 1
+            ctx.add("R5", k, i.ok, i.where, i.detail)
+    ctx.floor("R5", "externalised-value obligations", n5, 5)
     ctx.exhaustive = True
     ctx.not_decided += [
         "value equality of stored and returned results for every serializer value (quantifies over runtime values; C15 shares the limit)",
